@@ -56,12 +56,23 @@ Print Assumptions C09_decoder_names_are_encoder_names.
    string escaping and of the yaml.v2-derived reader + double-quoted-scalar scanner that reads every Spec file, .json included;
    both tied to the real code on every swept string by the CaseStr cases of Judge09).  For EVERY valid UTF-8 string outside
    the two known-finding classes the literal written by json.Marshal is scanned back to the same bytes ---- *)
-From CDI Require Import JsonString JsonStringProofs.
+From CDI Require Import JsonString JsonStringProofs JsonStringFix.
+(* the library's writer: encoding/json followed by escapeUnreadable (pkg/cdi/spec.go, repaired defect D20).  For EVERY valid UTF-8
+   string, with no exception, the literal written into a .json Spec file is scanned back to the same bytes ... *)
+Theorem C09_spec_json_string_layer : forall s, valid_utf8 s = true -> yaml_dq_scan (spec_json_escape s) = Some s.
+Proof. exact spec_json_string_layer. Qed.
+Print Assumptions C09_spec_json_string_layer.
+(* ... and outside the two classes that needed the repair the file is the one encoding/json alone would have written *)
+Theorem C09_spec_json_escape_same : forall s,
+  valid_utf8 s = true -> has_c1 s = false -> has_nel s = false -> spec_json_escape s = json_escape s.
+Proof. exact spec_json_escape_same. Qed.
+Print Assumptions C09_spec_json_escape_same.
+(* encoding/json alone (what the library wrote before the repair; former known findings C09/json-c1-controls, C09/json-nel): *)
 Theorem C09_json_string_layer : forall s,
   valid_utf8 s = true -> has_c1 s = false -> has_nel s = false -> yaml_dq_scan (json_escape s) = Some s.
 Proof. exact json_string_layer. Qed.
 Print Assumptions C09_json_string_layer.
-(* the two hypotheses are needed — the known findings C09/json-c1-controls and C09/json-nel are defects of the faithful model too:
+(* the two hypotheses are needed there — the former findings are defects of the faithful model of encoding/json + reader too:
    a string with U+007F (U+0080..U+009F except U+0085, U+FFFE, U+FFFF: c1_witnesses) makes the document unreadable ... *)
 Theorem C09_json_string_layer_c1_refuted :
   exists s, valid_utf8 s = true /\ has_c1 s = true /\ has_nel s = false /\ yaml_dq_scan (json_escape s) = None.
